@@ -90,6 +90,37 @@ class DInfo:
         self.types = sorted(set(self.types))
         self.svc_values = sorted(set([AC.uuid_le(g[2]) for g in self.groups] + [AC.as128(g[2]) for g in self.groups if len(g[2]) == 4]
                                      + [AC.uuid_le("fff1"), AC.uuid_le(U128 % 0xfff1)]))
+        # "near miss" types / values: derived from every configured uuid, each differs from it in one respect
+        self.near_types = near_misses(t16 + ["2800", "2801", "2803", "2902"], t128)
+        self.near_values = near_misses([g[2] for g in self.groups if len(g[2]) == 4],
+                                       [g[2] for g in self.groups if len(g[2]) == 32] + t128)
+        # the ones that name a configured uuid exactly go last: a known finding (skip) ends the judgement of a case
+        exact = set(AC.uuid_le(u) for u in t16 + t128) | set(AC.as128(u) for u in t16)
+        self.near_types = [t for t in self.near_types if t not in exact] + [t for t in self.near_types if t in exact]
+
+
+def near_misses(u16s, u128s):
+    """request types / values (request encoding, hex) that ALMOST name a configured uuid - the boundary family
+    of every uuid comparison of the server (uuid_filter, value_filter, compare_value):
+      16 bit uuid embedded in the Bluetooth base uuid with zero and with non-zero octets 14/15 (32 bit Bluetooth uuid),
+      the embedding with one differing octet of the base part, the 16 bit value +- 1 / with swapped octets,
+      the first / last 2 octets of every 128 bit uuid as a 16 bit value, every 128 bit uuid with one differing octet,
+      and lengths 1, 3, 15, 17 (prefixes / extensions of the encodings; not a valid type or value length)"""
+    out = []
+    for u in sorted(set(u16s)):
+        le = AC.uuid_le(u)
+        emb = AC.as128(u)                                   # octets 0..11 base, 12..13 the uuid, 14..15 zero
+        out += [le, emb, le[2:4] + le[0:2], "%04x" % ((int(le, 16) + 0x0100) & 0xffff), le[0:2], le + "00", emb[:30], emb + "00"]
+        for hi in ("0100", "3412", "00ff", "ffff"):         # non-zero octets 14/15
+            out.append(emb[:28] + hi)
+        for pos in (0, 5, 11):                              # one differing octet of the base part
+            out.append(emb[:2 * pos] + "%02x" % (int(emb[2 * pos:2 * pos + 2], 16) ^ 0x01) + emb[2 * pos + 2:])
+    for u in sorted(set(u128s)):
+        le = AC.uuid_le(u)
+        out += [le, le[0:4], le[28:32], le[0:2], le[0:6], le[:30], le + "00"]
+        for pos in (0, 7, 12, 15):
+            out.append(le[:2 * pos] + "%02x" % (int(le[2 * pos:2 * pos + 2], 16) ^ 0x80) + le[2 * pos + 2:])
+    return sorted(set(out))
 
 
 def fi(lo, hi):
